@@ -50,6 +50,71 @@ func vfBucketDirName(nb, id int) string {
 	return fmt.Sprintf("%x/%x", id/16, id%16)
 }
 
+// vfC15Shrink restarts the store over its home with a smaller served set and checks that
+// the buckets taken away - whose directories still hold data files - are not served:
+// gets miss, a set stores nothing anywhere below their directories, the top-level listing
+// does not count them.
+func vfC15Shrink(res *vfc.Result, id string, sut *vfSUT, r *ref.Rand, nb, depth int, served []int, vals map[string][]byte, info map[string]interface{}) {
+	// buckets that hold at least one of the stored keys
+	has := map[int]bool{}
+	for k := range vals {
+		has[ref.BucketOf(ref.KeyHash([]byte(k)), nb)] = true
+	}
+	var keep, gone []int
+	for _, b := range served {
+		if has[b] && (len(gone) == 0 || r.Intn(3) == 0) {
+			gone = append(gone, b)
+		} else {
+			keep = append(keep, b)
+		}
+	}
+	if len(gone) == 0 || nb == 1 {
+		return
+	}
+	sut.cfg.Served = append([]int{}, keep...)
+	if _, err := sut.Restart(""); err != nil {
+		res.Violate(id, "c15:restart-error", "restart with a smaller served set: "+err.Error(), info)
+		return
+	}
+	res.Event("shrunk_restarts", 1)
+	isGone := map[int]bool{}
+	for _, b := range gone {
+		isGone[b] = true
+	}
+	before := vfInventory(sut.home)
+	n := 0
+	for k, v := range vals {
+		b := ref.BucketOf(ref.KeyHash([]byte(k)), nb)
+		res.Eval(1)
+		it, err := sut.Get(k)
+		switch {
+		case isGone[b] && (err != nil || it != nil):
+			res.Violate(id, "c15:stale-bucket-served", fmt.Sprintf("after a restart without bucket %d (its directory still holds data files) get %q answers item=%v err=%v; served now: %v", b, k, it != nil, err, keep), info)
+			return
+		case !isGone[b] && (err != nil || it == nil || !bytes.Equal(it.Val, v)):
+			res.Violate(id, "c15:get-after-restart", fmt.Sprintf("get %q (bucket %d, still served) after the served set shrank: item %v err %v", k, b, it != nil, err), info)
+			return
+		}
+		if isGone[b] && n < 5 {
+			n++
+			sut.Set(k, []byte("written after the bucket was taken away"), 0, 0)
+			sut.Flush(true)
+			after := vfInventory(sut.home)
+			for f, st := range after {
+				if before[f] != st {
+					res.Violate(id, "c15:stale-bucket-wrote", fmt.Sprintf("set %q (bucket %d, no longer served) changed %s", k, b, f), info)
+					return
+				}
+			}
+			if it2, _ := sut.Get(k); it2 != nil {
+				res.Violate(id, "c15:stale-bucket-served", fmt.Sprintf("set then get of %q (bucket %d, no longer served) returns a value", k, b), info)
+				return
+			}
+		}
+	}
+	res.Seen(fmt.Sprintf("shrink/b%d/gone=%d/kept=%d", nb, minI(len(gone), 3), minI(len(keep), 3)))
+}
+
 func vfBucketHex(nb, b int) string {
 	if nb == 256 {
 		return fmt.Sprintf("%02x", b)
@@ -313,6 +378,9 @@ func vfC15(env *vfc.Env) {
 						break
 					}
 				}
+				// the route changes: some buckets that hold data move to another server and this
+				// one is restarted over the same home. It must not serve what is left on disk.
+				vfC15Shrink(res, id, sut, r, nb, depth, served, vals, info)
 			}
 		}
 		sut.Destroy()
